@@ -58,7 +58,7 @@ def pred_stats_marker_collision(cfg, run, ln, clause):
     ps = _post_steps(run)
     explained_any = False
     for T, got in end['filtered']:
-        key = (lambda p: p['t'] + p['dt']) if T == 'u' else (lambda p: p['t'])
+        key = (lambda p: p['t'] + p['dt']) if T in ('u', 'work_rhs', 'k') else (lambda p: p['t'])
         acc = [(i, p) for i, p in enumerate(ps) if not p['rs']]
         rej = [(i, p) for i, p in enumerate(ps) if p['rs']]
         want = sorted(key(p) for _, p in acc)
